@@ -28,11 +28,18 @@
 //!           E3  only the jj side changed  => git branch == local bookmark (propagation)
 //!           E4  both sides changed to different values, or the bookmark is conflicted
 //!                                         => git branch untouched (not overwritten)
-//!   from every reached state, `import; export` is run as a probe:
+//!   from every distinct reached state, `import; export` is run as a probe (its two
+//!   transitions are judged by the clauses above as well):
 //!           C1  every non-conflicted local bookmark equals git's branch of that name
 //!               (both absent, or both at the same commit)
 //!           C2  one more import reports no change, leaves the transaction without
 //!               changes, and leaves the observable state identical
+//!
+//! Mechanics: the initial workspace is built once (template) and copied; a history executes
+//! only its last action on a copy of the directory its parent history left behind (`Snaps`),
+//! which is what makes depth 6 affordable.  The start-up gate runs one history both ways (full
+//! replay from the template / snapshot extension) and demands the same observation; `--replay`
+//! always replays in full.
 //!
 //! The "allowed three-way merge" set is computed by a small reference written here on signed
 //! term counts (cancellation, the same-change rule, the fast-forward rule with a hard-coded
@@ -310,6 +317,8 @@ struct World {
     /// label -> commit id (index 0 unused)
     ids: Vec<CommitId>,
     ghost: Vec<Option<Cm>>,
+    /// the directory outlives this value (it became a snapshot)
+    keep: bool,
 }
 
 fn sig(secs: i64) -> Signature {
@@ -431,8 +440,15 @@ fn copy_dir(src: &Path, dst: &Path) {
 impl World {
     fn new(scratch: &Path) -> World {
         let t = TEMPLATE.get_or_init(|| build_template(scratch));
+        World::from_copy(&t.dir, scratch)
+    }
+
+    /// A world whose workspace is a byte copy of `src` (the template or the kept directory of an
+    /// earlier world), loaded through `RepoLoader`.
+    fn from_copy(src: &Path, scratch: &Path) -> World {
+        let t = TEMPLATE.get_or_init(|| build_template(scratch));
         let dir = scratch.join(format!("w{}", WORLD_SEQ.fetch_add(1, Ordering::Relaxed)));
-        copy_dir(&t.dir, &dir);
+        copy_dir(src, &dir);
         // another seed than the template's, so that a commit jj might create later never repeats
         // a change id of c1..c3
         let settings = settings(43);
@@ -445,7 +461,7 @@ impl World {
         .load_at_head()
         .block_on()
         .unwrap_or_else(|e| machinery_failure(&format!("load copied repo at head: {e}")));
-        World { dir, repo, ids: t.ids.clone(), ghost: vec![None; NAMES.len()] }
+        World { dir, repo, ids: t.ids.clone(), ghost: vec![None; NAMES.len()], keep: false }
     }
 
     fn label_of(&self, id: &CommitId) -> Cm {
@@ -522,7 +538,45 @@ impl World {
 
 impl Drop for World {
     fn drop(&mut self) {
+        if !self.keep {
+            let _ = std::fs::remove_dir_all(&self.dir);
+        }
+    }
+}
+
+/// The workspace as it was after a history, kept on disk so that the histories extending it by
+/// one action start from a copy instead of replaying the whole prefix.  `--replay` and the
+/// start-up gate always rebuild from the template and replay everything.
+struct Snap {
+    dir: PathBuf,
+    ghost: Vec<Option<Cm>>,
+    obs: Obs,
+    len: usize,
+}
+
+impl Drop for Snap {
+    fn drop(&mut self) {
         let _ = std::fs::remove_dir_all(&self.dir);
+    }
+}
+
+#[derive(Default)]
+struct Snaps(Mutex<HashMap<String, Arc<Snap>>>);
+
+fn hist_id(h: &[Act]) -> String {
+    h.iter().map(|a| a.render()).collect::<Vec<_>>().join(" ")
+}
+
+impl Snaps {
+    fn get(&self, h: &[Act]) -> Option<Arc<Snap>> {
+        self.0.lock().unwrap().get(&hist_id(h)).cloned()
+    }
+    fn insert(&self, h: &[Act], snap: Snap) {
+        let mut m = self.0.lock().unwrap();
+        // levels are explored one after the other: grand-parents are no longer needed
+        let len = snap.len;
+        m.retain(|_, s| s.len + 2 > len);
+        m.insert(hist_id(h), Arc::new(snap));
     }
 }
 
@@ -692,6 +746,8 @@ struct Stats {
     probe_transitions_judged: Counter,
     // bookkeeping
     k_differs_from_ghost: Counter,
+    started_from_snapshot: Counter,
+    started_from_template: Counter,
     t_new_us: Counter,
     t_exec_us: Counter,
     /// canonical states whose convergence probe has been claimed
@@ -975,17 +1031,35 @@ fn enabled(o: &Obs) -> Vec<Act> {
     acts
 }
 
-/// Rebuilds the state from scratch, checks the last transition, then probes convergence.
-fn step(scratch: &Path, st: &Stats, history: &[Act]) -> Option<Outcome> {
+/// Builds the state reached by `history` (from the kept directory of its parent history when
+/// there is one, else by replaying everything from the template), checks the last transition,
+/// then probes convergence.
+fn step(scratch: &Path, st: &Stats, snaps: Option<&Snaps>, keep: bool, history: &[Act]) -> Option<Outcome> {
     let t0 = std::time::Instant::now();
-    let mut w = World::new(scratch);
-    st.t_new_us.add(t0.elapsed().as_micros() as u64);
+    let parent = match (snaps, history.split_last()) {
+        (Some(s), Some((_, init))) => s.get(init),
+        _ => None,
+    };
     let mut violations: Vec<(String, String)> = vec![];
-    let mut obs = w.observe();
-    if obs.known & 0b11110 != 0b01110 {
-        machinery_failure("setup: jj should know c1..c3 and not c4");
-    }
-    for (i, a) in history.iter().enumerate() {
+    let (mut w, mut obs, start) = match &parent {
+        Some(snap) => {
+            let mut w = World::from_copy(&snap.dir, scratch);
+            w.ghost = snap.ghost.clone();
+            st.started_from_snapshot.inc();
+            (w, snap.obs.clone(), history.len() - 1)
+        }
+        None => {
+            let w = World::new(scratch);
+            let obs = w.observe();
+            if obs.known & 0b11110 != 0b01110 {
+                machinery_failure("setup: jj should know c1..c3 and not c4");
+            }
+            st.started_from_template.inc();
+            (w, obs, 0)
+        }
+    };
+    st.t_new_us.add(t0.elapsed().as_micros() as u64);
+    for (i, a) in history.iter().enumerate().skip(start) {
         let last = i + 1 == history.len();
         let pre = obs.clone();
         let ghost_pre = w.ghost.clone();
@@ -1070,18 +1144,28 @@ fn step(scratch: &Path, st: &Stats, history: &[Act]) -> Option<Outcome> {
                 }
             }
         };
+        // the probe runs on a copy when this world's directory is going to be kept as the
+        // starting point of the histories that extend this one
+        let mut copy_holder;
+        let pw: &mut World = if keep && snaps.is_some() {
+            copy_holder = World::from_copy(&w.dir, scratch);
+            copy_holder.ghost = w.ghost.clone();
+            &mut copy_holder
+        } else {
+            &mut w
+        };
         // the probe's import and export are transitions like any other: judge them too
-        let mut ghost = w.ghost.clone();
+        let mut ghost = pw.ghost.clone();
         let mut cur = obs.clone();
         let mut ok = true;
         for a in [Act::Import, Act::Export] {
-            match probe(&mut w, a.clone(), &mut violations) {
+            match probe(pw, a.clone(), &mut violations) {
                 None => {
                     ok = false;
                     break;
                 }
                 Some(rep) => {
-                    let post = w.observe();
+                    let post = pw.observe();
                     st.probe_transitions_judged.inc();
                     match a {
                         Act::Import => check_import(&cur, &post, &ghost, st, &mut violations),
@@ -1115,9 +1199,9 @@ fn step(scratch: &Path, st: &Stats, history: &[Act]) -> Option<Outcome> {
             if conflict_left {
                 st.probes_with_conflict_left.inc();
             }
-            if let Some(rep) = probe(&mut w, Act::Import, &mut violations) {
+            if let Some(rep) = probe(pw, Act::Import, &mut violations) {
                 st.second_import_checked.inc();
-                let again = w.observe();
+                let again = pw.observe();
                 if !rep.names.is_empty() || rep.has_changes || again != synced {
                     violations.push((
                         "C34/converge/second-import-changes-something".into(),
@@ -1136,6 +1220,10 @@ fn step(scratch: &Path, st: &Stats, history: &[Act]) -> Option<Outcome> {
         if samples.len() < 6 && history.len() >= 3 {
             samples.push(json!({"history": history.iter().map(|a| a.render()).collect::<Vec<_>>(), "state": key}));
         }
+    }
+    if let (Some(snaps), true, true) = (snaps, keep, violations.is_empty()) {
+        w.keep = true;
+        snaps.insert(history, Snap { dir: w.dir.clone(), ghost: w.ghost.clone(), obs: obs.clone(), len: history.len() });
     }
     Some(Outcome { key, actions, violations })
 }
@@ -1187,9 +1275,10 @@ fn main() {
                     .unwrap_or_else(|| machinery_failure("replay: bad action"))
             })
             .collect();
-        match step(&scratch, &stats, &history) {
+        match step(&scratch, &stats, None, false, &history) {
             None => machinery_failure("replay: history is not executable"),
             Some(o) => {
+                println!("replayed {} actions; reached state: {}", history.len(), o.key);
                 for (sig, msg) in o.violations {
                     ctx.violation(&sig, msg, history_json(&history));
                 }
@@ -1204,10 +1293,25 @@ fn main() {
         .map(|s| Act::parse(s).unwrap())
         .collect();
     let gate_stats = Stats::default();
-    let g1 = step(&scratch, &gate_stats, &gate).map(|o| (o.key, o.violations));
-    let g2 = step(&scratch, &gate_stats, &gate).map(|o| (o.key, o.violations));
+    // make sure the template exists before anything runs concurrently
+    drop(World::new(&scratch));
+    // once by a full replay, once incrementally through kept snapshots: same observation
+    let (g1, g2) = rayon::join(
+        || step(&scratch, &gate_stats, None, false, &gate).map(|o| (o.key, o.violations)),
+        || {
+            let gate_snaps = Snaps::default();
+            let mut g2 = None;
+            for n in 0..=gate.len() {
+                g2 = step(&scratch, &Stats::default(), Some(&gate_snaps), true, &gate[..n])
+                    .map(|o| (o.key, o.violations));
+            }
+            g2
+        },
+    );
     if g1.is_none() || g1 != g2 {
-        machinery_failure("determinism gate: the same history gave two different observations");
+        machinery_failure(
+            "determinism gate: replaying a history from scratch and extending kept snapshots gave different observations",
+        );
     }
 
     // Searches: thorough = one search from the empty colocated repository; quick = a shallower
@@ -1231,6 +1335,7 @@ fn main() {
     let mut per_search: Vec<Value> = vec![];
     let mut all_complete = true;
     for (prefix, depth, only_x) in &plan {
+        let snaps = Snaps::default();
         let prefix_acts: Vec<Act> = prefix.iter().map(|s| Act::parse(s).unwrap()).collect();
         let cfg = bfs::BfsConfig {
             max_depth: *depth,
@@ -1242,7 +1347,7 @@ fn main() {
             |h: &[Act]| {
                 let mut full = prefix_acts.clone();
                 full.extend_from_slice(h);
-                let o = step(&scratch, &stats, &full)?;
+                let o = step(&scratch, &stats, Some(&snaps), h.len() < *depth, &full)?;
                 for (sig, msg) in &o.violations {
                     ctx.violation(sig, msg.clone(), history_json(&full));
                 }
@@ -1323,8 +1428,9 @@ fn main() {
              sets/deletes branch x|y directly in the colocated repository (targets c1,c2,c3 and the git-only commit \
              c4), import_refs, export_refs; c1<c2, c1<c4, c3 unrelated; states merged on (local bookmark, actual git \
              branch, recorded git ref, @git remote bookmark, last-synced ghost value) per name with x/y interchangeable, \
-             plus which labelled commits are visible / known to jj; every history is executed once on a fresh colocated \
-             workspace, the last transition is judged, then (once per distinct state) import; export; import is run as a \
+             plus which labelled commits are visible / known to jj; every history is executed once (its last action on \
+             a copy of the colocated workspace as its parent history left it; a start-up gate checks that this equals a \
+             full replay from the initial workspace), the last transition is judged, then (once per distinct state) import; export; import is run as a \
              convergence probe; `states` = distinct canonical states over all searches; \
              non-trivial = distinct reached states in which some bookmark is conflicted or differs from its git branch"
         ),
@@ -1382,6 +1488,10 @@ fn main() {
             (
                 "summed_thread_wall_time_us".to_string(),
                 json!({"world_init": stats.t_new_us.get(), "replayed_actions": stats.t_exec_us.get(), "observations": stats.t_obs_us.get()}),
+            ),
+            (
+                "histories_started_from".to_string(),
+                json!({"kept_snapshot_of_the_parent_history": stats.started_from_snapshot.get(), "template_with_full_replay": stats.started_from_template.get()}),
             ),
             (
                 "informational_recorded_git_ref_differs_from_ghost_after_import".to_string(),
